@@ -512,7 +512,7 @@ class SsdpSearchResponder:
             return
 
         remote_addr = headers.get_lower("_remote_addr")
-        if delay:
+        if delay > 0:
             # The delay should be random between 0 and MX.
             # We use between 0.100 and MX-0.250 seconds to avoid
             # flooding the network with simultaneous responses.
